@@ -3,7 +3,7 @@
    Model: TextReader (sk_scan, skip_container_loop, suv_scan, skip_unquoted_value_loop) over BufWin.
    Specification: TextSkipRef (sk_scan_bytes, sref / skip_ref, skip_need, tok_count, uv_ref). *)
 From JV Require Import Bytes Tables U64Swar BufWin TextTok TextReader TextRef TextSkipRef TextTape TextDoc.
-From JV.proofs Require Import BufWinProofs TextReaderMainProofs TextSkipProofs TextSkipStreamProofs TextSkipTokProofs TextSkipUvProofs.
+From JV.proofs Require Import BufWinProofs TextReaderMainProofs TextSkipProofs TextSkipStreamProofs TextSkipTokProofs TextSkipUvProofs TextScanProofs TextSkipDocProofs.
 Open Scope nat_scope.
 
 (* 1. The 8-byte SWAR step (contains_zero_byte for quote / hash / brace detection, count_chunk for
@@ -211,3 +211,45 @@ Example C09_text_uv_ex :
   | _ => False
   end.
 Proof. vm_compute. repeat split; reflexivity. Qed.
+
+(* 4b. The same on documents (TextDoc): for every document d without parameter blocks whose bare
+   words are plain (simple_fields: TextDoc.wf_word, no double quote inside, not starting with a
+   question mark; quoted content is TextDoc.wf_quo -- braces, hashes, escaped quotes and
+   backslashes inside quoted scalars are allowed, and so is anything inside the comments of the
+   layout), for every well-formed layout and EVERY Open token of the rendering:
+     - counting the braces of the document's own token list finds the matching Close (post' =
+       the tokens after it);
+     - the reference tokenizer, started just after the Open, reads tokens, counts Open / Close and
+       stops exactly in front of the rendering of post' (token_skip), all tokens read being plain;
+     - skip_ref lands on exactly that byte (hence, by 3, so does the streaming skip_container).
+   PARTIAL with respect to the property's "every well-formed document": parameter blocks
+   ([[name] ... ]), interpolated expressions (@[ ... ]) and bare words starting with a question
+   mark are not covered; for bare words holding a double quote and for interpolated expressions
+   holding a brace, quote or hash the statement is false (the two refuted theorems above). *)
+Theorem C09_text_doc_skip_partial : forall d l pre post,
+  simple_fields d = true -> wf_layout d l ->
+  toks_fields d = pre ++ lbrace :: post ->
+  exists post',
+    match_close 1 post = Some post' /\
+    let s := render_toks (gap l) post (S (length pre)) in
+    let r := render_toks (gap l) post' (length (toks_fields d) - length post') in
+    (exists p, render d l = p ++ 123%N :: s) /\
+    (exists toks, token_skip s = Some (toks, r) /\ forallb tok_plain toks = true) /\
+    length r <= length s /\ skip_ref s = Some (length s - length r).
+Proof. exact doc_skip_every_open. Qed.
+Print Assumptions C09_text_doc_skip_partial.
+
+(* non-vacuity: the example document and layout of 4 satisfy the hypotheses *)
+Example C09_text_doc_ex :
+  simple_fields C09_text_ex_doc = true /\ wf_layout C09_text_ex_doc C09_text_ex_layout /\
+  exists pre post, toks_fields C09_text_ex_doc = pre ++ lbrace :: post /\ length pre = 2.
+Proof.
+  split; [reflexivity|]. split.
+  - split; [|split].
+    + intros i. apply gap_okb_sound. unfold C09_text_ex_layout. cbn [gap].
+      destruct (Nat.eqb i 0); [reflexivity|]. destruct (Nat.eqb i 3); [reflexivity|].
+      destruct (Nat.eqb i 10); reflexivity.
+    + cbn. repeat split; intros; reflexivity.
+    + intros _. reflexivity.
+  - eexists [_; _]. eexists. split; reflexivity.
+Qed.
